@@ -8,6 +8,7 @@ import (
 	"container/list"
 	"fmt"
 	"os"
+	"path/filepath"
 	"regexp"
 	"runtime/debug"
 	"strings"
@@ -195,9 +196,17 @@ func Guard(limit time.Duration, f func() Outcome) Outcome {
 	case o := <-done:
 		return o
 	case <-time.After(limit):
+		// keep the case that ran into the watchdog: its evaluation goes on in the background and, when it
+		// also eats memory, is what kills the shard later (the driver names it then)
+		if b, err := os.ReadFile(filepath.Join(WorkDir(), "cur.json")); err == nil {
+			slowSeq++
+			_ = os.WriteFile(filepath.Join(WorkDir(), fmt.Sprintf("slow-%d.json", slowSeq)), b, 0o644)
+		}
 		return Outcome{Timeout: true}
 	}
 }
+
+var slowSeq int
 
 // DefaultLimit is the in-process watchdog.
 var DefaultLimit = 20 * time.Second
